@@ -93,6 +93,8 @@ def cases(tier: str, seed: int) -> list[dict]:
                                      ("quadrature-fixed", "SaintVenantKirchhoff", 2, "QUAD4"), ("gonzalez", "MooneyRivlin", 3, "TETRA4"), ("quadrature", "MooneyRivlin", 3, "HEXA8"),
                                      ("gonzalez-simplified", "NeoHookean", 2, "TRI6")):
             out.append({"fam": "dynamics", "stress": stress, "law": law, "dim": dim, "et": et})
+            if stress in ("gonzalez", "quadrature", "quadrature-fixed"):
+                out.append({"fam": "dynamics", "stress": stress, "law": law, "dim": dim, "et": et, "save_every": [3, 0][len(out) % 2]})
     k = 0
     for r in range(rep):
         for algo, stress in (("elliptic", "pointwise"), ("newmark", "pointwise"), ("hht", "pointwise"), ("midpoint", "pointwise"), ("midpoint", "gonzalez"),
@@ -103,7 +105,7 @@ def cases(tier: str, seed: int) -> list[dict]:
                     continue
                 out.append({"fam": "assembly", "algo": algo, "stress": stress, "law": LAWS[k % 4], "dim": dim, "et": et, "visco": k % 3 == 0 and algo != "elliptic", "active": k % 4 == 1})
     for i, c in enumerate(out):
-        tag = {"assembly": lambda: f"{c['algo']}-{c['stress']}-{c['law']}-{c['et']}", "law": lambda: f"{c['law']}-{c['dim']}D", "operator": lambda: f"{c['op']}-{c['law']}-{c['et']}", "dynamics": lambda: f"{c['stress']}-{c['law']}-{c['et']}"}[c["fam"]]()
+        tag = {"assembly": lambda: f"{c['algo']}-{c['stress']}-{c['law']}-{c['et']}", "law": lambda: f"{c['law']}-{c['dim']}D", "operator": lambda: f"{c['op']}-{c['law']}-{c['et']}", "dynamics": lambda: f"{c['stress']}-{c['law']}-{c['et']}-{c.get('save_every', 1)}"}[c["fam"]]()
         c["id"] = f"C18-{i:05d}-{c['fam']}-{tag}"
         c["index"] = i
     return out
@@ -422,7 +424,7 @@ def run_operator(case, ctx, rng):
 # ------------------------------------------------------------------------------------------
 def run_dynamics(case, ctx, rng):
     stress, lawn, dim, et = case["stress"], case["law"], case["dim"], case["et"]
-    key0 = f"C18/dynamics/{stress}"
+    key0 = f"C18/dynamics/{stress}" + ("" if case.get("save_every", 1) == 1 else f"/saved-every-{case['save_every']}")
     ctx.default_key = key0
     nsteps = 30 if case["tier"] == "quick" else int(rng.integers(40, 120))
     with ctx.monitored("no-exception", key0 + "/build/raised"):
@@ -469,7 +471,11 @@ def run_dynamics(case, ctx, rng):
                 KE = 0.5 * float(v @ (M @ v))
                 W = float(simu._Calc_W())
                 energies.append((KE, W))
-                simu.Save_Iter()
+                # not every step is stored: every step, every third step, or none (the scheme advances from the state the
+                # simulation holds, whether or not it was saved)
+                every = case.get("save_every", 1)
+                if every and (k + 1) % every == 0:
+                    simu.Save_Iter()
     if M is not None and energies:
         KE0 = 0.5 * float(v0 @ (M @ v0))
         E = np.array([a + b for a, b in energies])
@@ -477,7 +483,7 @@ def run_dynamics(case, ctx, rng):
         tol = 1e-8 if stress.startswith("gonzalez") or stress == "quadrature-fixed" else 1e-7
         exchange = float(max(b for _, b in energies)) / KE0
         ctx.check("energy-conservation", drift, tol, f"{key0}/KE+W", law=lawn, et=et, dt=dt, steps=conv, exchange=exchange, E0=KE0)
-        ctx.describe(f"dynamics/{stress}/{lawn}/{dim}D/{et}", conv >= 10 and exchange > 0.01, stress=stress, law=lawn, et=et, dt=dt, steps=conv, exchange=exchange, drift=drift)
+        ctx.describe(f"dynamics/{stress}/{lawn}/{dim}D/{et}/{case.get('save_every', 1)}", conv >= 10 and exchange > 0.01, stress=stress, law=lawn, et=et, dt=dt, steps=conv, exchange=exchange, drift=drift)
     else:
         ctx.describe(f"dynamics/{stress}/{lawn}/{dim}D/{et}", False)
 
